@@ -236,6 +236,9 @@ func writeSAM(s *sam.SAM) ([]byte, error) {
 	if p := catch(func() { werr = s.Write(&w) }); p != nil || werr != nil {
 		return nil, fmt.Errorf("Write failed: panic=%v err=%v", p, werr)
 	}
+	if err := samePlain(s.Write, w.Bytes()); err != nil {
+		return nil, err
+	}
 	if err := writeAfterFailure(s.Write, w.Bytes()); err != nil {
 		return nil, err
 	}
